@@ -14,8 +14,8 @@ Open Scope Z_scope.
 
 (** For every pipeline of the algebra (map / filter / flat_map, shuffles, replication
     changes, global and keyed aggregations in single- and two-phase form, joins inner / left /
-    outer with hash or broadcast shipping, joins of a stream with a constant side input (also
-    inside loop bodies), merge, split diamonds closed by merge or join,
+    outer with hash or broadcast shipping, joins of a stream with a constant side input on either
+    side (also inside loop bodies), merge, split diamonds closed by merge or join,
     replay and iterate loops with state-dependent bodies, nested loops) and EVERY distributed
     execution the semantics admits — whatever the parallelism, the partitioning and the order
     in which elements cross the exchanges — the multiset delivered to the sink equals the
